@@ -207,6 +207,7 @@ def is_tag_child(x: object) -> TypeIs[TagChild]:
         (
             # TagNode, # Handled above
             TagList,
+            int,
             float,
             # None, # Handled above
             Sequence,
